@@ -485,6 +485,11 @@ inductive Query
   | createDerived (entries : List (Sym × Sym × Int))    -- Quantity.CreateDerived(OrderedDict(entries))
   /-- `Scalar(ObtainQuantity(OrderedDict(e1)), x) + or - Scalar(ObtainQuantity(OrderedDict(e2)), y)` -/
   | sumd (op : SumOp) (e1 e2 : List (Sym × Sym × Int)) (x y : Rat)
+  | defaultValue (c : Sym)                  -- db.GetDefaultValue(c)
+  | defaultUnit (c : Sym)                   -- db.GetDefaultUnit(c)
+  | findUnitCase (c u : Sym)                -- db.FindUnitCase(c, u)
+  | findSimilar (u : Sym)                   -- db.FindSimilarUnitMatches(u)   (compared as a set: the code sorts it)
+  | checkValueFor (c u : Sym) (x : Rat)     -- db.CheckValueForCategory(c, x, u)
 deriving DecidableEq, Repr
 
 inductive Ans
@@ -583,6 +588,20 @@ def answer (s : CState) : Query → CState × Except ErrKind Ans
           exMap (fun t => .descValue t.1 t.2)
             (sumDerived lg (obtainDict lg (obtainDict lg s false e1).1 false e2).1 op d1 d2 x y).2)
 
+  | .defaultValue c => (s, exMap .number (getDefaultValue s.reg c))
+  | .defaultUnit c => (s, exMap .sym (getDefaultUnit s.reg c))
+  | .findUnitCase c u => (s, exMap .sym (findUnitCase s.reg c u))
+  | .findSimilar u => (s, .ok (.syms (findSimilar s.reg u)))
+  | .checkValueFor c u x =>
+    ((obtain lg s false c u).1,
+      match (obtain lg s false c u).2 with
+      | .error e => .error e
+      | .ok q =>
+        match checkValue lg s.reg q x with
+        | .error e => .error e
+        | .ok true => .ok .unit
+        | .ok false => .error .value)
+
 /-- the cache-free meaning of a query: its answer on a database that has just been built from the
 same registry (empty memo tables) -/
 def spec (r : Registry) (q : Query) : Except ErrKind Ans := (answer lg (CState.fresh r) q).2
@@ -619,5 +638,92 @@ def registrations : List COp → List RegOp
   | [] => []
   | .reg op :: ops => op :: registrations ops
   | .query _ :: ops => registrations ops
+
+/-! ### value-bearing arithmetic the session model does not interpret
+
+Products, quotients, sums and differences of DERIVED operands (`2 m * (3 cm * 3 cm)`, nested to any
+depth) are computed by `_DoOperationResultingInNewQuantity` / `_DoOperationWithSameQuantity` /
+`_MatchQuantities` / `_ConvertMatchingExp` on composing maps.  The session model predicts such values
+itself only for the operand shapes of `Query.prod` / `Query.sumd`; for arbitrary expression trees it
+takes the arithmetic as an UNINTERPRETED function `ar` of (registry, expression): what a database
+built from that registry answers.  The memo tables are never an argument of `ar`, so every theorem
+about sessions holds for every such function; the correspondence check evaluates `ar` on the real code
+(a database freshly built from the same registrations) and compares the warm answer with it. -/
+
+inductive VBin
+  | mul
+  | div
+  | add
+  | sub
+deriving DecidableEq, Repr
+
+/-- an arithmetic expression over Scalars given as plain data -/
+inductive VExpr
+  | scalar (c u : Sym) (x : Rat)            -- Scalar(x, u, c)
+  | scalarU (u : Sym) (x : Rat)             -- Scalar(x, u)
+  | bin (op : VBin) (a b : VExpr)
+deriving DecidableEq, Repr
+
+/-- a step of a session that may also ask an arithmetic question -/
+inductive XOp
+  | base (op : COp)
+  | arith (e : VExpr)
+deriving DecidableEq, Repr
+
+inductive XOut (α : Type)
+  | base (o : Except ErrKind COut)
+  | val (a : α)
+
+/-- one step; `ar r e` = the answer of a database built from the registry `r` to the expression `e`.
+The arithmetic leaves the registry alone (its effect on the memo tables is not modelled: by
+`refinement_partial` no modelled answer depends on them) -/
+def xstep {α : Type} (ar : Registry → VExpr → α) (s : CState) : XOp → CState × XOut α
+  | .base op => ((cstep lg s op).1, .base (cstep lg s op).2)
+  | .arith e => (s, .val (ar s.reg e))
+
+def xrun {α : Type} (ar : Registry → VExpr → α) (s : CState) : List XOp → CState
+  | [] => s
+  | op :: ops => xrun ar (xstep lg ar s op).1 ops
+
+def xoutputs {α : Type} (ar : Registry → VExpr → α) (s : CState) : List XOp → List (XOut α)
+  | [] => []
+  | op :: ops => (xstep lg ar s op).2 :: xoutputs ar (xstep lg ar s op).1 ops
+
+/-! ### several private databases alive at the same time
+
+A family of sessions indexed by numbers; every step is addressed to one of them.  Stated for any
+step function, instantiated with `cstep` / `xstep`. -/
+
+section Family
+variable {σ ι ο : Type} (f : σ → ι → σ × ο)
+
+/-- a history on one database -/
+def frun (s : σ) : List ι → σ
+  | [] => s
+  | op :: ops => frun (f s op).1 ops
+
+def fouts (s : σ) : List ι → List ο
+  | [] => []
+  | op :: ops => (f s op).2 :: fouts (f s op).1 ops
+
+/-- a step addressed to database `op.1`: only that member of the family moves -/
+def stepN (s : Nat → σ) (op : Nat × ι) : (Nat → σ) × ο :=
+  (fun j => if j = op.1 then (f (s op.1) op.2).1 else s j, (f (s op.1) op.2).2)
+
+def runN (s : Nat → σ) : List (Nat × ι) → (Nat → σ)
+  | [] => s
+  | op :: ops => runN (stepN f s op).1 ops
+
+/-- the outcomes of an interleaved history, each tagged with the database it was addressed to -/
+def outputsN (s : Nat → σ) : List (Nat × ι) → List (Nat × ο)
+  | [] => []
+  | op :: ops => (op.1, (stepN f s op).2) :: outputsN (stepN f s op).1 ops
+
+end Family
+
+/-- the steps (or outcomes) addressed to database `i`, in order -/
+def partOf {α : Type} (i : Nat) : List (Nat × α) → List α
+  | [] => []
+  | (j, a) :: rest => if j = i then a :: partOf i rest else partOf i rest
 
 end Barril.Reg
